@@ -149,11 +149,21 @@ WEXPORT int64_t w_skip(uint32_t which, uint32_t cstr, const uint8_t* s, size_t n
   }
   W_CATCH_ALL
 }
-// string_printf: the conversion itself is vasprintf (environment); the harness supplies a contract stub and checks the
-// wrapper logic around it (length returned = bytes copied incl. NULs, NULL => bad_alloc, buffer freed)
+// string_printf: the conversion itself is vasprintf / vsnprintf (environment); the harness supplies contract models and
+// checks the wrapper logic around them (length returned = bytes copied incl. NULs, NULL => bad_alloc, buffer freed)
 WEXPORT int64_t w_string_printf(uint32_t arg, uint8_t* out, size_t cap) {
   try {
     return w_copy_out(string_printf("%u", arg), out, cap);
+  }
+  W_CATCH_ALL
+}
+// the same, but only the size and ONE byte of the result leave the wrapper (long results are checked at one symbolic
+// position; copying 4 KiB out through a loop doubles the cost of the query)
+WEXPORT int64_t w_string_printf_at(uint32_t arg, size_t idx, uint8_t* byte) {
+  try {
+    std::string r = string_printf("%u", arg);
+    if (idx < r.size()) *byte = static_cast<uint8_t>(r[idx]);
+    return static_cast<int64_t>(r.size());
   }
   W_CATCH_ALL
 }
